@@ -17,24 +17,69 @@
 //! the result is that handler's result wrapped in the same-named response variant, or its
 //! error unchanged.  Loop-free => complete for each request variant.
 use crate::ctap1;
-use crate::ctap2::{self, client_pin, credential_management, get_assertion, get_info, large_blobs, make_credential};
+use crate::ctap2::{
+    self, client_pin, credential_management, get_assertion, get_info, large_blobs, make_credential,
+};
 use crate::ctap2::{Error, Request, Response, VendorOperation};
 use crate::webauthn::*;
 use crate::{Bytes, Rpc, String, Vec};
 
 pub const ALL_ERRORS: [Error; 55] = [
-    Error::Success, Error::InvalidCommand, Error::InvalidParameter, Error::InvalidLength, Error::InvalidSeq,
-    Error::Timeout, Error::ChannelBusy, Error::LockRequired, Error::InvalidChannel, Error::CborUnexpectedType,
-    Error::InvalidCbor, Error::MissingParameter, Error::LimitExceeded, Error::UnsupportedExtension,
-    Error::FingerprintDatabaseFull, Error::LargeBlobStorageFull, Error::CredentialExcluded, Error::Processing,
-    Error::InvalidCredential, Error::UserActionPending, Error::OperationPending, Error::NoOperations,
-    Error::UnsupportedAlgorithm, Error::OperationDenied, Error::KeyStoreFull, Error::NotBusy,
-    Error::NoOperationPending, Error::UnsupportedOption, Error::InvalidOption, Error::KeepaliveCancel,
-    Error::NoCredentials, Error::UserActionTimeout, Error::NotAllowed, Error::PinInvalid, Error::PinBlocked,
-    Error::PinAuthInvalid, Error::PinAuthBlocked, Error::PinNotSet, Error::PinRequired, Error::PinPolicyViolation,
-    Error::PinTokenExpired, Error::RequestTooLarge, Error::ActionTimeout, Error::UpRequired, Error::UvBlocked,
-    Error::IntegrityFailure, Error::InvalidSubcommand, Error::UvInvalid, Error::UnauthorizedPermission, Error::Other,
-    Error::SpecLast, Error::ExtensionFirst, Error::ExtensionLast, Error::VendorFirst, Error::VendorLast,
+    Error::Success,
+    Error::InvalidCommand,
+    Error::InvalidParameter,
+    Error::InvalidLength,
+    Error::InvalidSeq,
+    Error::Timeout,
+    Error::ChannelBusy,
+    Error::LockRequired,
+    Error::InvalidChannel,
+    Error::CborUnexpectedType,
+    Error::InvalidCbor,
+    Error::MissingParameter,
+    Error::LimitExceeded,
+    Error::UnsupportedExtension,
+    Error::FingerprintDatabaseFull,
+    Error::LargeBlobStorageFull,
+    Error::CredentialExcluded,
+    Error::Processing,
+    Error::InvalidCredential,
+    Error::UserActionPending,
+    Error::OperationPending,
+    Error::NoOperations,
+    Error::UnsupportedAlgorithm,
+    Error::OperationDenied,
+    Error::KeyStoreFull,
+    Error::NotBusy,
+    Error::NoOperationPending,
+    Error::UnsupportedOption,
+    Error::InvalidOption,
+    Error::KeepaliveCancel,
+    Error::NoCredentials,
+    Error::UserActionTimeout,
+    Error::NotAllowed,
+    Error::PinInvalid,
+    Error::PinBlocked,
+    Error::PinAuthInvalid,
+    Error::PinAuthBlocked,
+    Error::PinNotSet,
+    Error::PinRequired,
+    Error::PinPolicyViolation,
+    Error::PinTokenExpired,
+    Error::RequestTooLarge,
+    Error::ActionTimeout,
+    Error::UpRequired,
+    Error::UvBlocked,
+    Error::IntegrityFailure,
+    Error::InvalidSubcommand,
+    Error::UvInvalid,
+    Error::UnauthorizedPermission,
+    Error::Other,
+    Error::SpecLast,
+    Error::ExtensionFirst,
+    Error::ExtensionLast,
+    Error::VendorFirst,
+    Error::VendorLast,
 ];
 
 pub fn any_error() -> Error {
@@ -68,10 +113,24 @@ pub struct Mock {
 
 impl Mock {
     fn new() -> Self {
-        Mock { calls: [0; 10], seen: 0, vendor: 0, fail: kani::any(), err: any_error(), tag: kani::any() }
+        Mock {
+            calls: [0; 10],
+            seen: 0,
+            vendor: 0,
+            fail: kani::any(),
+            err: any_error(),
+            tag: kani::any(),
+        }
     }
     fn same_behaviour(&self) -> Self {
-        Mock { calls: [0; 10], seen: 0, vendor: 0, fail: self.fail, err: self.err, tag: self.tag }
+        Mock {
+            calls: [0; 10],
+            seen: 0,
+            vendor: 0,
+            fail: self.fail,
+            err: self.err,
+            tag: self.tag,
+        }
     }
     fn hit(&mut self, k: usize, addr: usize) {
         self.calls[k] = self.calls[k].wrapping_add(1);
@@ -87,7 +146,11 @@ impl Mock {
         ok
     }
     fn out<T>(&self, v: T) -> ctap2::Result<T> {
-        if self.fail { Err(self.err) } else { Ok(v) }
+        if self.fail {
+            Err(self.err)
+        } else {
+            Ok(v)
+        }
     }
 }
 
@@ -104,7 +167,10 @@ fn mc_response(tag: u32) -> make_credential::Response {
 
 fn ga_response(tag: u32) -> get_assertion::Response {
     get_assertion::ResponseBuilder {
-        credential: PublicKeyCredentialDescriptor { id: Bytes::new(), key_type: String::new() },
+        credential: PublicKeyCredentialDescriptor {
+            id: Bytes::new(),
+            key_type: String::new(),
+        },
         auth_data: Bytes::new(),
         signature: Bytes::new(),
     }
@@ -125,15 +191,25 @@ impl BuildWith for get_assertion::ResponseBuilder {
 impl ctap2::Authenticator for Mock {
     fn get_info(&mut self) -> get_info::Response {
         self.hit(GI, 0);
-        let mut r = get_info::ResponseBuilder { versions: Vec::new(), aaguid: Bytes::new() }.build();
+        let mut r = get_info::ResponseBuilder {
+            versions: Vec::new(),
+            aaguid: Bytes::new(),
+        }
+        .build();
         r.max_msg_size = Some(self.tag as usize);
         r
     }
-    fn make_credential(&mut self, request: &make_credential::Request) -> ctap2::Result<make_credential::Response> {
+    fn make_credential(
+        &mut self,
+        request: &make_credential::Request,
+    ) -> ctap2::Result<make_credential::Response> {
         self.hit(MC, request as *const _ as usize);
         self.out(mc_response(self.tag))
     }
-    fn get_assertion(&mut self, request: &get_assertion::Request) -> ctap2::Result<get_assertion::Response> {
+    fn get_assertion(
+        &mut self,
+        request: &get_assertion::Request,
+    ) -> ctap2::Result<get_assertion::Response> {
         self.hit(GA, request as *const _ as usize);
         self.out(ga_response(self.tag))
     }
@@ -169,7 +245,10 @@ impl ctap2::Authenticator for Mock {
         self.vendor = op.into();
         self.out(())
     }
-    fn large_blobs(&mut self, request: &large_blobs::Request) -> ctap2::Result<large_blobs::Response> {
+    fn large_blobs(
+        &mut self,
+        request: &large_blobs::Request,
+    ) -> ctap2::Result<large_blobs::Response> {
         self.hit(LB, request as *const _ as usize);
         self.out(large_blobs::Response { config: None })
     }
@@ -177,12 +256,21 @@ impl ctap2::Authenticator for Mock {
 
 /// The postcondition of `call_ctap2` for request `req`, handler index `k`, payload address `addr`.
 fn post(m: &Mock, r: &ctap2::Result<Response>, k: usize, addr: usize) {
-    assert!(m.only(k), "C10: not exactly one handler call, or the wrong handler");
-    assert!(m.seen == addr, "C10: the handler did not receive the request's own parameters");
+    assert!(
+        m.only(k),
+        "C10: not exactly one handler call, or the wrong handler"
+    );
+    assert!(
+        m.seen == addr,
+        "C10: the handler did not receive the request's own parameters"
+    );
     match r {
         Err(e) => {
             assert!(k != GI, "C10: GetInfo cannot fail");
-            assert!(m.fail && *e as u8 == m.err as u8, "C10: handler error changed or invented");
+            assert!(
+                m.fail && *e as u8 == m.err as u8,
+                "C10: handler error changed or invented"
+            );
         }
         Ok(resp) => {
             assert!(k == GI || !m.fail, "C10: handler error swallowed");
@@ -235,15 +323,42 @@ static HASH: [u8; 32] = [0; 32];
 pub struct NoLargeBlobs(Mock);
 
 impl ctap2::Authenticator for NoLargeBlobs {
-    fn get_info(&mut self) -> get_info::Response { self.0.get_info() }
-    fn make_credential(&mut self, r: &make_credential::Request) -> ctap2::Result<make_credential::Response> { self.0.make_credential(r) }
-    fn get_assertion(&mut self, r: &get_assertion::Request) -> ctap2::Result<get_assertion::Response> { self.0.get_assertion(r) }
-    fn get_next_assertion(&mut self) -> ctap2::Result<get_assertion::Response> { self.0.get_next_assertion() }
-    fn reset(&mut self) -> ctap2::Result<()> { self.0.reset() }
-    fn client_pin(&mut self, r: &client_pin::Request) -> ctap2::Result<client_pin::Response> { self.0.client_pin(r) }
-    fn credential_management(&mut self, r: &credential_management::Request) -> ctap2::Result<credential_management::Response> { self.0.credential_management(r) }
-    fn selection(&mut self) -> ctap2::Result<()> { self.0.selection() }
-    fn vendor(&mut self, op: VendorOperation) -> ctap2::Result<()> { self.0.vendor(op) }
+    fn get_info(&mut self) -> get_info::Response {
+        self.0.get_info()
+    }
+    fn make_credential(
+        &mut self,
+        r: &make_credential::Request,
+    ) -> ctap2::Result<make_credential::Response> {
+        self.0.make_credential(r)
+    }
+    fn get_assertion(
+        &mut self,
+        r: &get_assertion::Request,
+    ) -> ctap2::Result<get_assertion::Response> {
+        self.0.get_assertion(r)
+    }
+    fn get_next_assertion(&mut self) -> ctap2::Result<get_assertion::Response> {
+        self.0.get_next_assertion()
+    }
+    fn reset(&mut self) -> ctap2::Result<()> {
+        self.0.reset()
+    }
+    fn client_pin(&mut self, r: &client_pin::Request) -> ctap2::Result<client_pin::Response> {
+        self.0.client_pin(r)
+    }
+    fn credential_management(
+        &mut self,
+        r: &credential_management::Request,
+    ) -> ctap2::Result<credential_management::Response> {
+        self.0.credential_management(r)
+    }
+    fn selection(&mut self) -> ctap2::Result<()> {
+        self.0.selection()
+    }
+    fn vendor(&mut self, op: VendorOperation) -> ctap2::Result<()> {
+        self.0.vendor(op)
+    }
 }
 
 #[kani::proof]
@@ -252,7 +367,10 @@ pub fn c10_k_ctap2_large_blobs_not_implemented() {
     let req = Request::LargeBlobs(lb_request());
     let mut a = NoLargeBlobs(Mock::new());
     let r = a.call_ctap2(&req);
-    assert!(matches!(r, Err(Error::InvalidCommand)), "C10: missing large-blobs support must answer InvalidCommand");
+    assert!(
+        matches!(r, Err(Error::InvalidCommand)),
+        "C10: missing large-blobs support must answer InvalidCommand"
+    );
     let mut i = 0;
     while i < 10 {
         assert!(a.0.calls[i] == 0, "C10: another handler was called");
@@ -283,7 +401,10 @@ fn any_status(k: u8) -> ctap1::Error {
 }
 
 impl ctap1::Authenticator for Mock1 {
-    fn register(&mut self, request: &ctap1::register::Request<'_>) -> ctap1::Result<ctap1::register::Response> {
+    fn register(
+        &mut self,
+        request: &ctap1::register::Request<'_>,
+    ) -> ctap1::Result<ctap1::register::Response> {
         self.reg = self.reg.wrapping_add(1);
         self.seen = request as *const _ as usize;
         if self.fail {
@@ -306,7 +427,11 @@ impl ctap1::Authenticator for Mock1 {
         if self.fail {
             return Err(any_status(self.err_sw));
         }
-        Ok(ctap1::authenticate::Response { user_presence: self.tag, count: 0, signature: Bytes::new() })
+        Ok(ctap1::authenticate::Response {
+            user_presence: self.tag,
+            count: 0,
+            signature: Bytes::new(),
+        })
     }
 }
 
@@ -315,12 +440,22 @@ impl ctap1::Authenticator for Mock1 {
 #[kani::unwind(8)]
 pub fn c10_k_ctap1_version() {
     use ctap1::Authenticator;
-    let mut m = Mock1 { reg: 0, auth: 0, seen: 0, fail: kani::any(), err_sw: kani::any(), tag: kani::any() };
+    let mut m = Mock1 {
+        reg: 0,
+        auth: 0,
+        seen: 0,
+        fail: kani::any(),
+        err_sw: kani::any(),
+        tag: kani::any(),
+    };
     let entry: bool = kani::any();
     let r = if entry {
         m.call_ctap1(&ctap1::Request::Version)
     } else {
-        <Mock1 as Rpc<ctap1::Error, ctap1::Request<'_>, ctap1::Response>>::call(&mut m, &ctap1::Request::Version)
+        <Mock1 as Rpc<ctap1::Error, ctap1::Request<'_>, ctap1::Response>>::call(
+            &mut m,
+            &ctap1::Request::Version,
+        )
     };
     assert!(m.reg == 0 && m.auth == 0, "C10: Version called a handler");
     match r {
